@@ -1221,6 +1221,18 @@ func t8Config(p *an.Prog, r *an.Result) {
 				inOrder = false
 			}
 		}
+		// every way out of the setter has stored the list (a setter that returns early for some
+		// arguments leaves the previous configuration in force)
+		for _, in := range instrsOf(f) {
+			if ret, ok := in.(*ssa.Return); ok {
+				r.Counts["setter returns"]++
+				if instrDominates(stored, ret) {
+					r.OK(name, "return after the delimiters are stored", ret.Pos(), "")
+				} else {
+					r.Bad(name, "return without storing the delimiters", ret.Pos(), "for some arguments the call configures nothing: the delimiters of an earlier call stay in force (four empty strings are documented to select the defaults)")
+				}
+			}
+		}
 		if inOrder {
 			r.OK(name, "stores its four arguments, unchanged and in order", stored.Pos(), "Delims = []string{p1, p2, p3, p4}")
 		} else {
@@ -1464,7 +1476,26 @@ func runT9(p *an.Prog, r *an.Result) {
 				continue
 			}
 			res := resultsOf(ret)
-			if instrDominates(bw[0], ret) || !an.IsNilConst(res[len(res)-1]) {
+			if instrDominates(bw[0], ret) {
+				continue
+			}
+			// an early return is an error return: its error result has been found non-nil
+			errv := res[len(res)-1]
+			knownErr := false
+			if !an.IsNilConst(errv) {
+				for _, g := range an.GuardsAtInstr(ret) {
+					b, ok := g.Cond.(*ssa.BinOp)
+					if !ok || !(b.Op == token.NEQ && g.True || b.Op == token.EQL && !g.True) {
+						continue
+					}
+					for _, pair := range [][2]ssa.Value{{b.X, b.Y}, {b.Y, b.X}} {
+						if an.IsNilConst(pair[1]) && (pair[0] == errv || sameValue(pair[0], errv) || an.Reaches(errv, an.StepValue, func(o ssa.Value) bool { return o == pair[0] })) {
+							knownErr = true
+						}
+					}
+				}
+			}
+			if knownErr {
 				continue
 			}
 			good = false
@@ -1837,4 +1868,155 @@ func (lf linForm) String(p *an.Prog) string {
 		out += fmt.Sprintf("%+d", lf.c)
 	}
 	return out
+}
+
+// ---------------------------------------------------------------------------
+// T11
+
+func init() {
+	register("T11", "the tokens partition exactly the source the caller gave: the scanner's position advances only to the end of the match just handled, text tokens are the input from the position to the start of the match (and from the position to the end), object and tag tokens are the match itself; and the string that reaches the scanner is the caller's source (or the file's, or the tag's argument text) with nothing cut, replaced or added on the way", runT11)
+}
+
+func runT11(p *an.Prog, r *an.Result) {
+	fn := p.Func("parser.Scan")
+	if fn == nil {
+		r.Bad("-", "Scan not found", token.NoPos, "anchor not resolved")
+		return
+	}
+	name := an.FuncName(fn)
+	data := fn.Params[0]
+	text, _ := pkgConst(p, "parser", "TextTokenType")
+	obj, _ := pkgConst(p, "parser", "ObjTokenType")
+	tag, _ := pkgConst(p, "parser", "TagTokenType")
+	isMatchPos := func(v ssa.Value, k int64) bool {
+		for _, o := range an.Origins(v, an.StepValue) {
+			_, kk, ok := matchElem(o)
+			if !ok || kk != k {
+				return false
+			}
+		}
+		return true
+	}
+	// the position: a loop-carried integer that starts at 0
+	var pos *ssa.Phi
+	an.EachInstr(fn, func(in ssa.Instruction) {
+		ph, ok := in.(*ssa.Phi)
+		if !ok {
+			return
+		}
+		if b, ok := ph.Type().Underlying().(*types.Basic); !ok || b.Kind() != types.Int {
+			return
+		}
+		// used as the low bound of a slice of data
+		used := false
+		if ph.Referrers() != nil {
+			for _, u := range *ph.Referrers() {
+				if sl, ok := u.(*ssa.Slice); ok && sl.X == ssa.Value(data) && sl.Low == ssa.Value(ph) {
+					used = true
+				}
+			}
+		}
+		if used {
+			pos = ph
+		}
+	})
+	if pos == nil {
+		r.Bad(name, "scan position not found", an.FuncPos(fn), "the rule looks for the loop-carried index that text tokens start at")
+		return
+	}
+	for _, e := range pos.Edges {
+		r.Counts["position updates"]++
+		if c, ok := an.ConstInt(e); ok && c == 0 {
+			r.OK(name, "position starts at 0", pos.Pos(), "")
+			continue
+		}
+		if isMatchPos(e, 1) {
+			r.OK(name, "position moves to the end of the match", pos.Pos(), "p = m[1]")
+			continue
+		}
+		r.Bad(name, "position set to "+describe(p, e), pos.Pos(), "the scan position may only move to the end of the match just handled: any other step skips or repeats input, or moves a token boundary away from where the pattern put it")
+	}
+	for _, st := range tokenFieldStores(p, fn) {
+		if fieldName(st.Addr.(*ssa.FieldAddr)) != "Source" {
+			continue
+		}
+		// the type of this token literal
+		var typ int64 = -1
+		for _, st2 := range tokenFieldStores(p, fn) {
+			if fa2 := st2.Addr.(*ssa.FieldAddr); fieldName(fa2) == "Type" && fa2.X == st.Addr.(*ssa.FieldAddr).X {
+				if c, ok := an.ConstInt(st2.Val); ok {
+					typ = c
+				}
+			}
+		}
+		r.Counts["token sources"]++
+		okSrc := true
+		for _, o := range an.Origins(st.Val, an.StepValue) {
+			sl, ok := o.(*ssa.Slice)
+			if !ok || sl.X != ssa.Value(data) {
+				okSrc = false
+				continue
+			}
+			switch typ {
+			case text:
+				lowOK := sl.Low == ssa.Value(pos)
+				highOK := sl.High == nil || isMatchPos(sl.High, 0)
+				if !lowOK || !highOK {
+					okSrc = false
+				}
+			case obj, tag:
+				if sl.Low == nil || sl.High == nil || !isMatchPos(sl.Low, 0) || !isMatchPos(sl.High, 1) {
+					okSrc = false
+				}
+			default:
+				okSrc = false
+			}
+		}
+		if okSrc {
+			r.OK(name, "token source bounded by the position and the match", st.Pos(), "")
+		} else {
+			r.Bad(name, "token source "+describe(p, st.Val), st.Pos(), "a text token must be data[p:m[0]] or data[p:], an object or tag token data[m[0]:m[1]]: the token boundaries are the pattern's")
+		}
+	}
+	r.Floor("position updates", 2)
+	r.Floor("token sources", 4)
+	// the string that reaches the scanner
+	sites := callSitesOf(p, fn)
+	step := stepIP(p)
+	for _, cs := range sites {
+		for _, o := range an.Origins(cs.Call.Args[0], step) {
+			r.Counts["scanner input origins"]++
+			where := an.FuncName(cs.Parent())
+			switch x := o.(type) {
+			case *ssa.Parameter, *ssa.Const, *ssa.Lookup, *ssa.FreeVar, *ssa.Global:
+				r.OK(where, "scanner input from "+describe(p, o), an.InstrPos(cs), "a parameter, a constant or a table entry, handed on as it is")
+			case *ssa.UnOp:
+				r.OK(where, "scanner input from "+describe(p, o), an.InstrPos(cs), "a stored value, handed on as it is")
+			case *ssa.Extract, *ssa.Call:
+				c := an.CallOf(o)
+				if ex, ok := o.(*ssa.Extract); ok {
+					if _, isLk := ex.Tuple.(*ssa.Lookup); isLk {
+						r.OK(where, "scanner input from "+describe(p, o), an.InstrPos(cs), "a table entry, handed on as it is")
+						continue
+					}
+					c = an.CallOf(ex.Tuple)
+				}
+				cn := ""
+				if c != nil {
+					cn = an.CallName(c)
+				}
+				switch {
+				case cn == "os.ReadFile" || cn == "io/ioutil.ReadFile" || cn == "io.ReadAll":
+					r.OK(where, "scanner input read by "+cn, an.InstrPos(cs), "the content of the file")
+				case c != nil && c.IsInvoke():
+					r.OK(where, "scanner input from "+cn, an.InstrPos(cs), "the result of an interface method (the tag's argument text, a template store)")
+				default:
+					r.Bad(where, "scanner input computed by "+nonEmpty(cn, describe(p, o)), x.Pos(), fmt.Sprintf("the source is passed through %s before it is tokenised: what the template renders is no longer the text the caller supplied (a tag-free source must render to itself)", nonEmpty(cn, "a computation")))
+				}
+			default:
+				r.Bad(where, "scanner input computed: "+describe(p, o), an.InstrPos(cs), "the source is cut, joined or otherwise computed before it is tokenised: what the template renders is no longer the text the caller supplied")
+			}
+		}
+	}
+	r.Floor("scanner input origins", 2)
 }
